@@ -56,21 +56,23 @@ json.dump(res, open(out, "w"))
 def run(ctx):
     logging.disable(logging.CRITICAL)
     names = ["xfer_fetch_purge", "redundant_then_purge_target"] if ctx.quick else list(INSTANCES)
-    faults = 1 if ctx.quick else 2
+    # (instance, fault budget, check liveness): liveness runs cannot hide the history variable behind a VIEW, so they are smaller
+    runs = [("xfer_fetch_purge", 1, False), ("redundant_then_purge_target", 1, False), ("xfer_fetch_purge", 0, True)] if ctx.quick else \
+           [(n, 2, False) for n in INSTANCES] + [("xfer_fetch_purge", 1, True), ("redundant_then_purge_target", 1, True)]
 
-    def mc(name):
+    def mc(run):
+        name, faults, live = run
         inst = INSTANCES[name]
-        live = len(inst["cmds"]) <= 3
         cfg = tlc.cfg_text(spec="FairSpec" if live else "Spec", constants=consts(inst, faults), invariants=INV,
                            properties=["EventuallyDone"] if live else None, constraints=["NetBounded"],
                            view=None if live else "view")
-        d = tlc.stage(ctx.scratch, "mc_" + name, ["Transfer"], {"MC.tla": mc_module(inst), "MC.cfg": cfg})
+        d = tlc.stage(ctx.scratch, f"mc_{name}_{faults}_{int(live)}", ["Transfer"], {"MC.tla": mc_module(inst), "MC.cfg": cfg})
         r = tlc.check(d, "MC", workers=6, coverage=True, deadlock=False, timeout=3000, light=False, heap="8g")
         tlc.require_clean(r, "Transfer " + name)
-        return name, r
+        return f"{name}/faults={faults}" + ("/liveness" if live else ""), r
 
     with ThreadPoolExecutor(max_workers=2) as tp:
-        results = list(tp.map(mc, names))
+        results = list(tp.map(mc, runs))
     cov: dict[str, int] = {}
     for name, r in results:
         for a, n in r.coverage.items():
